@@ -291,18 +291,26 @@ func (p *Prog) ingestOf(in ssa.Instruction) (src ssa.Value, ok bool) {
 	return call.Call.Args[1], true
 }
 
-// resetOf: `B = B[:0]`
+// isReset: `B = B[:0]`, `B = nil`, or `B = make([]T, 0, n)` (an empty buffer by any spelling)
 func (p *Prog) isReset(in ssa.Instruction) bool {
 	st, ok := fieldStore(in, "join")
 	if !ok {
 		return false
 	}
-	sl, ok := st.Val.(*ssa.Slice)
-	if !ok || !p.isFieldLoad(sl.X, "join") || sl.Low != nil {
-		return false
+	switch v := st.Val.(type) {
+	case *ssa.Slice:
+		if !p.isFieldLoad(v.X, "join") || v.Low != nil {
+			return false
+		}
+		k, ok := constDuration(v.High)
+		return ok && k == 0
+	case *ssa.Const:
+		return v.Value == nil
+	case *ssa.MakeSlice:
+		k, ok := constDuration(v.Len)
+		return ok && k == 0
 	}
-	k, ok := constDuration(sl.High)
-	return ok && k == 0
+	return false
 }
 
 // varargsElem: for the `append(B, item)` single-element form returns item.
@@ -407,6 +415,19 @@ func (p *Prog) payloadOrigin(fr *Frame, v ssa.Value) payload {
 			if callee != nil && callee.String() == "slices.Clone" {
 				walk(fr, x.Call.Args[0], true, depth+1)
 				return
+			}
+			if bi, ok := x.Call.Value.(*ssa.Builtin); ok && bi.Name() == "append" && len(x.Call.Args) == 2 {
+				// append(nil / fresh empty slice, src...) is a copy of src
+				fresh := isNilConst(x.Call.Args[0])
+				if ms, ok := x.Call.Args[0].(*ssa.MakeSlice); ok {
+					if k, isK := constDuration(ms.Len); isK && k == 0 {
+						fresh = true
+					}
+				}
+				if fresh {
+					walk(fr, x.Call.Args[1], true, depth+1)
+					return
+				}
 			}
 			if callee != nil && p.IsProduct(callee) {
 				child := &Frame{Fn: callee, Site: x, Parent: fr}
